@@ -89,3 +89,6 @@ func (b *Batch) VerifBatchID() uint64 {
 func (db *DB) VerifMergePath() string {
 	return db.mergePath()
 }
+
+// VerifShardCount: the number of index shards the engine runs with.
+func (db *DB) VerifShardCount() int { return db.index.VerifShardCount() }
